@@ -87,6 +87,67 @@ theorem reqJoin_classified (net : Net) : ∀ (fuel s j : Nat) (e : Err),
             · exact ih _ _ _ h
             · exact Or.inl (handOff_total net s j nd0 hg e h)
 
+/-- **C08 (under concurrent pointer maintenance).** The same classification holds when ANY transformation
+`g` of the net (another goroutine's `checkPredecessor`, `stabilize`, `Notify`, a crash …) takes effect
+between the routing decision and the membership lock: the hand-off reads the pointers under the lock, so
+whatever `g` leaves there — `pred = none` included — is answered, never dereferenced. -/
+theorem reqJoinWith_classified (g : Net → Net) (net : Net) : ∀ (fuel s j : Nat) (e : Err),
+    errOf (requestToJoinWith g net fuel s j).2 = some e →
+      e.retryable = true ∨ e = .duplicateJoiner ∨ isLookupError e = true := by
+  intro fuel
+  induction fuel with
+  | zero => intro s j e h; simp [requestToJoinWith, errOf] at h; subst h; simp [isLookupError]
+  | succ f ih =>
+    intro s j e h
+    unfold requestToJoinWith at h
+    cases hg : net.get s with
+    | none => simp [hg, errOf] at h; subst h; simp [isLookupError]
+    | some nd0 =>
+      simp only [hg] at h
+      split at h
+      · simp [errOf] at h; subst h; simp [isLookupError]
+      · cases hf : findSucc net FUEL s j with
+        | err e' =>
+          simp [hf, errOf] at h; subst h
+          exact Or.inr (Or.inr (findSucc_err_isLookupError net _ _ _ _ hf))
+        | found succ =>
+          simp only [hf] at h
+          split at h
+          · simp [errOf] at h; subst h; simp
+          · split at h
+            · exact ih _ _ _ h
+            · cases hg' : (g net).get s with
+              | none =>
+                have hh : handOff (g net) s j = (g net, .error .unreachable) := by
+                  unfold handOff; rw [hg']
+                rw [hh] at h; simp [errOf] at h; subst h; simp [isLookupError]
+              | some nd' => exact Or.inl (handOff_total (g net) s j nd' hg' e h)
+
+/-- with `g = id` this is the plain request -/
+theorem requestToJoinWith_id (net : Net) : ∀ (fuel s j : Nat),
+    requestToJoinWith id net fuel s j = requestToJoin net fuel s j := by
+  intro fuel
+  induction fuel with
+  | zero => intro s j; rfl
+  | succ f ih =>
+    intro s j
+    unfold requestToJoinWith requestToJoin
+    cases net.get s with
+    | none => rfl
+    | some nd0 =>
+      simp only
+      split
+      · rfl
+      · cases findSucc net FUEL s j with
+        | err e => rfl
+        | found succ =>
+          simp only
+          split
+          · rfl
+          · split
+            · exact ih _ _
+            · rfl
+
 /-- a refused join request changes nothing (no state, pointer or key moves anywhere) -/
 theorem refusal_changes_nothing (net : Net) : ∀ (fuel s j : Nat) (e : Err),
     errOf (requestToJoin net fuel s j).2 = some e → (requestToJoin net fuel s j).1 = net := by
